@@ -305,9 +305,14 @@ PostStepEntries(s, p) ==
        <<"dt", t, s.iter[p], s.riar[p], p, sw, dt[p]>>,
        <<"u", t + dt[p], s.iter[p], s.riar[p], p, sw, 0>> >>
 
-StatsAfterCheck(S, s0, s1) ==
+\* DefaultHooks.post_iteration: every running step with iter > 0 records its residual, keyed by its own restart count
+IterEntries(s0) ==
+    {<<"residual_post_iteration", time[p], s0.iter[p], s0.riar[p], p, s0.lsweep[p], 0>> : p \in {q \in Running(s0) : s0.iter[q] > 0}}
+
+StatsAfterCheck(S0, s0, s1) ==
     \* steps that turned DONE in this IT_CHECK pass write their post_step entries, in slot order
-    LET newly == Asc({p \in Active : s0.stage[p] # "DONE" /\ s1.stage[p] = "DONE"})
+    LET S == PutAll(S0, SetToSeq(IterEntries(s0)))
+        newly == Asc({p \in Active : s0.stage[p] # "DONE" /\ s1.stage[p] = "DONE"})
         RECURSIVE go(_, _)
         go(T, q) == IF q = <<>> THEN T ELSE go(PutAll(T, PostStepEntries(s1, Head(q))), Tail(q))
     IN go(S, newly)
@@ -330,6 +335,16 @@ OnePerAccepted(S, T, accs) ==
         key(a) == IF T = "u" THEN a.t + a.dt ELSE a.t
     IN /\ Cardinality(F) = Len(accs)
        /\ \A i \in 1 .. Len(accs) : Cardinality({e \in F : e[2] = key(accs[i])}) = 1
+\* filter_stats(stats, recomputed=False) WITHOUT a type: superseded generations are removed per type, then everything at
+\* the times of restarted steps
+FilterRecomputedAll(S) ==
+    LET types == {e[1] : e \in S}
+        kept == UNION {KeepLatest(OfType(S, T)) : T \in types}
+    IN {e \in kept : e[2] \notin RecomputedTimes(S)}
+\* the number of per-iteration records of an accepted step equals its iteration count
+IterRecordsMatch(S, accs) ==
+    \A i \in 1 .. Len(accs) :
+        Cardinality({e \in FilterRecomputed(S, "residual_post_iteration") : e[2] = accs[i].t}) = accs[i].niter
 NiterRecorded(S, accs) ==
     \A i \in 1 .. Len(accs) : \A e \in FilterRecomputed(S, "niter") : e[2] = accs[i].t => e[7] = accs[i].niter
 
@@ -648,5 +663,6 @@ CrashOnlyAfterBudget == phase = "crashed" => (CRASH /\ st.riar[0] >= MAXR)
 \* ---- C14: statistics ----
 StatsOnePerStep == phase = "finished" => \A T \in {"niter", "restart", "dt", "u"} : OnePerAccepted(stats, T, acc)
 StatsNiter == phase = "finished" => NiterRecorded(stats, acc)
+StatsIterRecords == phase = "finished" => IterRecordsMatch(stats, acc)
 
 =============================================================================
